@@ -15,8 +15,8 @@ RULE = ("2-3 keyspaces of which one or two have a filter assigned by name (keep 
 
 FILTERS = [{"alpha": "r61"}, {"beta": "r62,p61:ff"}, {"alpha": "p62:-", "gamma": "r7a"}, {"alpha": "r61,r62,p63:aabb"}]
 
-# keyspace configurations drawn per keyspace: standard, key-value separation (threshold 1 / 8 bytes), FIFO with a limit that never evicts
-CONFIGS = ["", "", "blob=8", "fifo=4000000000", "blob=1"]
+# keyspace configurations drawn per keyspace: standard, key-value separation (threshold 1 / 8 bytes); FIFO is documented for insert-only workloads with monotone keys only (lsm-tree asserts a disjoint L0) and is exercised by dedicated scenarios
+CONFIGS = ["", "", "blob=8", "blob=1"]
 
 
 def programs(seed, n, nops):
@@ -178,8 +178,38 @@ def sealed_journal_filter(variant):
     return None
 
 
+def config_filter(args):
+    """the filter assigned to a name is in effect whatever the keyspace's configuration (FIFO strategy, key-value separation,
+    leveled with other parameters), for a newly created keyspace and for one recovered on reopen; an unfiltered keyspace with
+    the same configuration is untouched.  Insert-only with increasing keys, as FIFO is documented for.  After a flush and a
+    major compaction (which merges every table whatever the strategy) the filtered forms must be read."""
+    from common import run_fjv
+    cfg, recovered = args
+    c = (" " + cfg) if cfg else ""
+    L = ["open plain filters=alpha:r61,p62:ff", "ks h0 alpha" + c, "ks h1 beta" + c,
+         "put h0 6101 aa", "put h0 6201 bb", "put h0 6301 cc", "put h1 6101 aa", "put h1 6201 bb"]
+    if recovered:
+        L += ["reopen", "ks h0 alpha" + c, "ks h1 beta" + c, "put h0 6102 ab", "put h0 6202 bc", "put h1 6202 bc"]
+    L += ["rotate h0", "rotate h1", "drain", "major h0", "major h1"]
+    g0 = len(L)
+    L += ["get - h0 6101", "get - h0 6201", "get - h0 6301", "get - h1 6101", "get - h1 6201", "scan - h0 fwd all", "scan - h1 fwd all"]
+    prog = "\n".join(L) + "\n"
+    o, raw, rc = run_fjv(prog, timeout=120)
+    got = [o.get(g0 + i) for i in range(1, 8)]
+    want = ["none", "some ff", "some cc", "some aa", "some bb",
+            "6201=ff,6202=ff,6301=cc" if recovered else "6201=ff,6301=cc",
+            "6101=aa,6201=bb,6202=bc" if recovered else "6101=aa,6201=bb"]
+    if got != want:
+        return ("filter r61,p62:ff assigned to 'alpha' (configuration %r, %s keyspace): after flush + major compaction reads are %s, "
+                "expected %s" % (cfg, "recovered" if recovered else "new", got, want), prog)
+    return None
+
+
 def run(rep, tier, seed, build):
     from common import pmap
+    cf = [x for x in pmap(config_filter, [(c, r) for c in ("", "fifo=4000000000", "blob=1", "leveled=2") for r in (False, True)], workers=4) if x]
+    for msg, prog in cf[:2]:
+        rep.violation("# C18: %s\n%s" % (msg, prog))
     sj = [x for x in pmap(sealed_journal_filter, (seed % 3, 3 + (seed + 1) % 3) if tier == "quick" else (0, 1, 2, 3, 4, 5), workers=3) if x]
     for msg, prog in sj[:1]:
         rep.violation("# C18: %s\n%s" % (msg, prog))
@@ -201,7 +231,7 @@ def run(rep, tier, seed, build):
                 rep.violation("# C18: key %s of keyspace %s was observed in its filtered form at line %d and reads its original value "
                               "again at line %d with no write in between (verdict kind %s, reopen in between: %s)\n%s"
                               % (key, name, at, ln, kind, reopened, ev["prog"]))
-    coverage(rep, res, progs, RULE, dict(stays_filtered_monitor_hits=mon, known_finding_hits=known_hits))
+    coverage(rep, res, progs, RULE, dict(stays_filtered_monitor_hits=mon, known_finding_hits=known_hits, configuration_scenarios=8))
 
 
 def replay(rep, path, build):
